@@ -26,7 +26,7 @@ ASSUMPTIONS = ['instruction encodings of the handful of forms used are taken fro
                'a pass is a deterministic function of source, options and the symbol table left by the previous pass (passes >= 2)']
 MANIFEST = dict(
     category='exploration', design_ref='DESIGN.md §4 C01',
-    technique='runtime monitor over hook traces: pass-loop state digests (cycle = proven livelock), emission trace decoded by per-target mini decoders against the final symbol dump, and an extra-pass metamorphic run',
+    technique='runtime monitor over hook traces: pass-loop state digests (cycle = proven livelock), emission trace decoded by per-target mini decoders against the final symbol dump, and an extra-pass metamorphic run (also with setting statements appended behind the last statement)',
     text='Held on the executions of this run: generated programs on five targets with auto-sized encodings terminated, every reference decoded to the final '
          'value of its symbol which equals the address where the label was actually emitted, and one forced extra pass changed neither code file nor symbols; '
          'every golden program terminated under the pass cap and was unchanged by an extra pass.',
